@@ -237,10 +237,10 @@ Proof.
   - (* FBytesHex *) destruct Hwt as [Hlen Hok].
     rewrite load_bytes_app by (congruence || apply bytes_okb_ok; exact Hok). reflexivity.
   - (* FCoins *) destruct Hwt as [H0 Hlen]. unfold s_load_coins, s_load_var_uint.
-    change 4 with (lt_bits 16). rewrite load_var_uint_lt by (lia || assumption). reflexivity.
+    change 4 with (lt_bits 16). rewrite load_var_uint_lt by (lia || eassumption). reflexivity.
   - (* FVarUint *) destruct Hwt as [H0 Hlen]. unfold s_load_var_uint.
-    rewrite load_var_uint_lt by (lia || assumption). reflexivity.
-  - (* FVarInt *) unfold s_load_var_int. rewrite load_var_int_lt by (lia || assumption). reflexivity.
+    rewrite load_var_uint_lt by (lia || eassumption). reflexivity.
+  - (* FVarInt *) unfold s_load_var_int. rewrite load_var_int_lt by (lia || eassumption). reflexivity.
   - (* FAddr *) rewrite load_address_app by exact Hwt. reflexivity.
   - (* FAddrInt *) rewrite load_address_app by apply Hwt. reflexivity.
   - (* FAddrExt *) rewrite load_address_app by apply Hwt. reflexivity.
@@ -255,3 +255,235 @@ Proof.
   destruct f; cbn [fty_op] in Hop; try discriminate; cbn [fty_expr eval app];
     rewrite nth_middle; cbn [wt_field] in Hwt; destruct x; try contradiction; reflexivity.
 Qed.
+
+(* ------------------------------------------------------------------------------------------------ *)
+(* Fields, items, constructors                                                                       *)
+(* ------------------------------------------------------------------------------------------------ *)
+
+Lemma need_prim nty f o : fty_op f = Some o -> need_field nty f = 1.
+Proof. destruct f; cbn [fty_op need_field]; intros H; (discriminate || reflexivity). Qed.
+
+Lemma maybe_cases (x : pv) : x = PNone \/ x <> PNone.
+Proof. destruct x; (left; reflexivity) || (right; discriminate). Qed.
+
+Lemma enc_maybe_some ety g x : x <> PNone ->
+  enc_field ety (FMaybe g) x = bind (enc_field ety g x) (fun '(b, r) => Ok (true :: b, r)).
+Proof. intros H. destruct x; (contradiction || reflexivity). Qed.
+
+Lemma wt_maybe_some wty g x : x <> PNone -> wt_field wty (FMaybe g) x -> wt_field wty g x.
+Proof. intros H. destruct x; (contradiction || (intros Hw; exact Hw)). Qed.
+
+Section Correct.
+  Variable tbl : table.
+  Variable st : stable.
+  Variable d : nat.
+
+  (* what is assumed of the named types at nesting depth d *)
+  Definition ty_ok : Prop :=
+    forall T a x bits refs, wt_type st d T a x -> enc_type st d T a x = Ok (bits, refs) ->
+      exists tree, lookup tbl T a = Some tree /\
+        forall fuel ty tb tr, need_type st d T a <= fuel ->
+          exists ss', run tbl fuel tree [(0, mkTS ty (mkS (bits ++ tb) (refs ++ tr)))] [] [] = Ok (x, ss')
+                      /\ get_slice ss' 0 = Ok (mkTS ty (mkS tb tr)).
+  Hypothesis Hty : ty_ok.
+
+  (* the tree t, entered with n variables bound, reaches the continuation k having consumed exactly the
+     encoding from sub-slice sid, with the attributes `names` bound to the values `look` gives them *)
+  Definition post (t : dtree) (k : kont) (names : list string) (look : string -> pv)
+      (sid n ns : nat) (acc : list (string * dexpr)) (ss : slices) (env : list pv) (w : list nat)
+      (ty : Z) (tb : list bool) (tr : list cell) (fuel bound : nat) : Prop :=
+    exists c ss' vals ws acc' ns',
+      run tbl fuel t ss env w
+      = run tbl (fuel - c) (k (n + List.length vals) ns' (acc ++ acc')) ss' (env ++ vals) (w ++ ws)
+      /\ c <= bound
+      /\ get_slice ss' sid = Ok (mkTS ty (mkS tb tr))
+      /\ (forall j, j <> sid -> j < ns -> get_slice ss' j = get_slice ss j)
+      /\ List.length ws = List.length vals /\ ns <= ns'
+      /\ map fst acc' = names
+      /\ Forall (fun p => forall more leaf, eval (snd p) (env ++ vals ++ more) leaf = look (fst p)) acc'.
+
+  Lemma field_prim f o nm look bits refs :
+    fty_op f = Some o ->
+    wf_fty f = true -> wt_field (wt_type st d) f (look nm) ->
+    enc_field (enc_type st d) f (look nm) = Ok (bits, refs) ->
+    forall sid n ns acc k ss env w ty tb tr fuel,
+      get_slice ss sid = Ok (mkTS ty (mkS (bits ++ tb) (refs ++ tr))) ->
+      List.length env = n -> List.length w = n -> sid < ns -> need_field (need_type st d) f <= fuel ->
+      post (compile_field f nm sid n ns acc k) k [nm] look sid n ns acc ss env w ty tb tr fuel
+           (need_field (need_type st d) f).
+  Proof.
+    intros Hop Hwf Hwt Henc sid n ns acc k ss env w ty tb tr fuel Hget Hn Hw Hsid Hfuel.
+    rewrite (need_prim _ f o Hop) in *. rewrite (compile_prim f o nm sid n ns acc k Hop).
+    exists 1, (set_slice ss sid (mkTS ty (mkS tb tr))), [fty_raw f (look nm)], [op_width o],
+           [(nm, fty_expr f n)], ns.
+    split; [|split; [|split; [|split; [|split; [|split; [|split]]]]]].
+    - rewrite (run_prim tbl fuel sid o _ ss env w _ _ _ Hfuel Hget
+                 (prim_field_load _ _ f o _ bits refs tb tr Hop Hwf Hwt Henc)).
+      cbn [ts_ty List.length]. replace (n + 1) with (S n) by lia. reflexivity.
+    - lia.
+    - apply get_set_same.
+    - intros j Hj _. apply get_set_other. exact Hj.
+    - reflexivity.
+    - lia.
+    - reflexivity.
+    - constructor; [|constructor]. intros more leaf. cbn [fst snd].
+      apply (prim_field_eval (wt_type st d) f o); assumption.
+  Qed.
+
+  Lemma field_correct : forall f nm look bits refs,
+    wf_fty f = true -> wt_field (wt_type st d) f (look nm) ->
+    enc_field (enc_type st d) f (look nm) = Ok (bits, refs) ->
+    forall sid n ns acc k ss env w ty tb tr fuel,
+      get_slice ss sid = Ok (mkTS ty (mkS (bits ++ tb) (refs ++ tr))) ->
+      List.length env = n -> List.length w = n -> sid < ns -> need_field (need_type st d) f <= fuel ->
+      post (compile_field f nm sid n ns acc k) k [nm] look sid n ns acc ss env w ty tb tr fuel
+           (need_field (need_type st d) f).
+  Proof.
+    induction f as [w0|m0|m0|w0| | |w0|w0|w0| |m0|m0| | | | | |T a|T a|g IH|dn vf _];
+      intros nm look bits refs Hwf Hwt Henc sid n ns acc k ss env w ty tb tr fuel Hget Hn Hw Hsid Hfuel;
+      try (solve [eapply field_prim; [reflexivity|eassumption..]]).
+    - (* FMaybeCell *)
+      cbn [need_field] in *. cbn [compile_field]. cbn [wt_field] in Hwt. cbn [enc_field ok_bits] in Henc.
+      destruct (look nm) eqn:Hx; try contradiction; inversion Henc; subst bits refs; clear Henc.
+      + exists 2, (set_slice ss sid (mkTS ty (mkS tb tr))), [PNone], [1], [(nm, ENone)], ns.
+        split; [|split; [|split; [|split; [|split; [|split; [|split]]]]]].
+        * rewrite (run_prim tbl fuel sid OMaybeRefCell _ ss env w _ PNone (mkS tb tr)) by (lia || eassumption || reflexivity).
+          rewrite (run_if tbl _ n 0 _ _ _ _ _ false);
+            [|lia|rewrite <- Hn, nth_middle; reflexivity].
+          cbn [ts_ty List.length]. replace (n + 1) with (S n) by lia.
+          replace (fuel - 1 - 1) with (fuel - 2) by lia. reflexivity.
+        * lia.
+        * apply get_set_same.
+        * intros j Hj _. apply get_set_other. exact Hj.
+        * reflexivity.
+        * lia.
+        * reflexivity.
+        * constructor; [|constructor]. intros more leaf. cbn [fst snd eval]. symmetry. exact Hx.
+      + exists 2, (set_slice ss sid (mkTS ty (mkS tb tr))), [PCell c], [1], [(nm, EVar n)], ns.
+        split; [|split; [|split; [|split; [|split; [|split; [|split]]]]]].
+        * rewrite (run_prim tbl fuel sid OMaybeRefCell _ ss env w _ (PCell c) (mkS tb tr)) by (lia || eassumption || reflexivity).
+          rewrite (run_if tbl _ n 0 _ _ _ _ _ true);
+            [|lia|rewrite <- Hn, nth_middle; reflexivity].
+          cbn [ts_ty List.length]. replace (n + 1) with (S n) by lia.
+          replace (fuel - 1 - 1) with (fuel - 2) by lia. reflexivity.
+        * lia.
+        * apply get_set_same.
+        * intros j Hj _. apply get_set_other. exact Hj.
+        * reflexivity.
+        * lia.
+        * reflexivity.
+        * constructor; [|constructor]. intros more leaf. cbn [fst snd eval app]. subst n.
+          rewrite nth_middle. symmetry. exact Hx.
+    - (* FType *)
+      cbn [need_field] in *. cbn [compile_field]. cbn [wt_field] in Hwt. cbn [enc_field] in Henc.
+      destruct (Hty T a (look nm) bits refs Hwt Henc) as (tree & Hlk & Hrun).
+      destruct (Hrun (fuel - 1) ty tb tr) as (ss1 & Hrun1 & Hget1); [lia|].
+      exists 1, (set_slice ss sid (mkTS ty (mkS tb tr))), [look nm], [1], [(nm, EVar n)], ns.
+      split; [|split; [|split; [|split; [|split; [|split; [|split]]]]]].
+      + rewrite (run_call tbl fuel sid T a _ ss env w _ tree (look nm) ss1 _) by (lia || eassumption).
+        cbn [List.length]. replace (n + 1) with (S n) by lia. reflexivity.
+      + lia.
+      + apply get_set_same.
+      + intros j Hj _. apply get_set_other. exact Hj.
+      + reflexivity.
+      + lia.
+      + reflexivity.
+      + constructor; [|constructor]. intros more leaf. cbn [fst snd eval app]. subst n.
+        rewrite nth_middle. reflexivity.
+    - (* FRefType *)
+      cbn [need_field] in *. cbn [compile_field]. cbn [wt_field] in Hwt. cbn [enc_field] in Henc.
+      destruct (enc_type st d T a (look nm)) as [[b r]|e] eqn:Hinner; cbn [bind] in Henc; [|discriminate].
+      inversion Henc; subst bits refs; clear Henc.
+      destruct (Hty T a (look nm) b r Hwt Hinner) as (tree & Hlk & Hrun).
+      destruct (Hrun (fuel - 1 - 1) ty_ordinary [] []) as (ss1 & Hrun1 & Hget1); [lia|].
+      rewrite !app_nil_r in Hrun1.
+      set (ssA := set_slice (set_slice ss sid (mkTS ty (mkS tb tr))) ns (mkTS ty_ordinary (mkS b r))).
+      exists 2, (set_slice ssA ns (mkTS ty_ordinary (mkS [] []))),
+             [PCell (Cell ty_ordinary b r); look nm], [1; 1], [(nm, EVar (S n))], (S ns).
+      split; [|split; [|split; [|split; [|split; [|split; [|split]]]]]].
+      + rewrite (run_ref tbl fuel sid ns _ ss env w _ (Cell ty_ordinary b r) (mkS tb tr))
+          by (lia || eassumption || reflexivity).
+        cbn [ts_ty cell_slice]. fold ssA.
+        rewrite (run_call tbl (fuel - 1) ns T a _ ssA _ _ (mkTS ty_ordinary (mkS b r)) tree (look nm) ss1
+                   (mkTS ty_ordinary (mkS [] []))); [|lia|apply get_set_same|assumption|assumption|assumption].
+        rewrite <- !app_assoc. cbn [List.length app].
+        replace (n + 2) with (S (S n)) by lia. replace (fuel - 1 - 1) with (fuel - 2) by lia. reflexivity.
+      + lia.
+      + rewrite get_set_other by lia. unfold ssA. rewrite get_set_other by lia. apply get_set_same.
+      + intros j Hj Hlt. rewrite get_set_other by lia. unfold ssA. rewrite get_set_other by lia.
+        apply get_set_other. exact Hj.
+      + reflexivity.
+      + lia.
+      + reflexivity.
+      + constructor; [|constructor]. intros more leaf. cbn [fst snd eval app]. subst n.
+        change (PCell (Cell ty_ordinary b r) :: look nm :: more)
+          with ([PCell (Cell ty_ordinary b r)] ++ look nm :: more).
+        rewrite app_assoc. replace (S (List.length env)) with (List.length (env ++ [PCell (Cell ty_ordinary b r)]))
+          by (rewrite app_length; cbn; lia).
+        rewrite nth_middle. reflexivity.
+    - (* FMaybe *)
+      cbn [need_field] in *. cbn [compile_field]. cbn [wf_fty] in Hwf.
+      destruct (maybe_cases (look nm)) as [Hx|Hx].
+      + rewrite Hx in Henc. cbn [enc_field ok_bits] in Henc. inversion Henc; subst bits refs; clear Henc.
+        exists 2, (set_slice ss sid (mkTS ty (mkS tb tr))), [PBool false], [1], [(nm, ENone)], ns.
+        split; [|split; [|split; [|split; [|split; [|split; [|split]]]]]].
+        * rewrite (run_prim tbl fuel sid OBit _ ss env w _ (PBool false) (mkS tb tr)) by (lia || eassumption || reflexivity).
+          rewrite (run_if tbl _ n 0 _ _ _ _ _ false);
+            [|lia|rewrite <- Hn, nth_middle; reflexivity].
+          cbn [ts_ty List.length]. replace (n + 1) with (S n) by lia.
+          replace (fuel - 1 - 1) with (fuel - 2) by lia. reflexivity.
+        * lia.
+        * apply get_set_same.
+        * intros j Hj _. apply get_set_other. exact Hj.
+        * reflexivity.
+        * lia.
+        * reflexivity.
+        * constructor; [|constructor]. intros more leaf. cbn [fst snd eval]. symmetry. exact Hx.
+      + rewrite (enc_maybe_some _ g _ Hx) in Henc.
+        destruct (enc_field (enc_type st d) g (look nm)) as [[b r]|e] eqn:Hinner; cbn [bind] in Henc; [|discriminate].
+        inversion Henc; subst bits refs; clear Henc.
+        pose proof (wt_maybe_some _ g _ Hx Hwt) as Hwt'.
+        set (ssA := set_slice ss sid (mkTS ty (mkS (b ++ tb) (r ++ tr)))).
+        destruct (IH nm look b r Hwf Hwt' Hinner sid (S n) ns acc k ssA (env ++ [PBool true]) (w ++ [1])
+                     ty tb tr (fuel - 1 - 1)) as (c & ss' & vals & ws & acc' & ns' & Hrun & Hc & Hg & Hfr & Hlen & Hns & Hnames & Hev).
+        { apply get_set_same. }
+        { rewrite app_length. cbn. lia. }
+        { rewrite app_length. cbn. lia. }
+        { exact Hsid. }
+        { lia. }
+        exists (2 + c), ss', (PBool true :: vals), (1 :: ws), acc', ns'.
+        split; [|split; [|split; [|split; [|split; [|split; [|split]]]]]].
+        * rewrite (run_prim tbl fuel sid OBit _ ss env w _ (PBool true) (mkS (b ++ tb) (r ++ tr)))
+            by (lia || eassumption || reflexivity).
+          rewrite (run_if tbl _ n 0 _ _ _ _ _ true);
+            [|lia|rewrite <- Hn, nth_middle; reflexivity].
+          cbn [ts_ty op_width]. fold ssA. rewrite Hrun. rewrite <- !app_assoc. cbn [List.length app].
+          replace (S n + List.length vals) with (n + S (List.length vals)) by lia.
+          replace (fuel - 1 - 1 - c) with (fuel - (2 + c)) by lia. reflexivity.
+        * lia.
+        * exact Hg.
+        * intros j Hj Hlt. rewrite (Hfr j Hj Hlt). unfold ssA. apply get_set_other. exact Hj.
+        * cbn [List.length]. lia.
+        * exact Hns.
+        * exact Hnames.
+        * eapply Forall_impl; [|exact Hev]. intros p Hp more leaf. cbn beta in Hp.
+          rewrite <- (Hp more leaf). rewrite <- !app_assoc. reflexivity.
+    - (* FDict: only the empty dictionary *)
+      cbn [need_field] in *. cbn [compile_field]. cbn [wt_field] in Hwt. rewrite Hwt in Henc.
+      cbn [enc_field ok_bits] in Henc. inversion Henc; subst bits refs; clear Henc.
+      exists 2, (set_slice ss sid (mkTS ty (mkS tb tr))), [PNone], [1], [(nm, ENone)], ns.
+      split; [|split; [|split; [|split; [|split; [|split; [|split]]]]]].
+      + rewrite (run_dict_empty tbl fuel sid dn _ _ ss env w _ (mkS tb tr)) by (lia || eassumption || reflexivity).
+        rewrite (run_if tbl _ n 0 _ _ _ _ _ false);
+          [|lia|rewrite <- Hn, nth_middle; reflexivity].
+        cbn [ts_ty List.length]. replace (n + 1) with (S n) by lia.
+        replace (fuel - 1 - 1) with (fuel - 2) by lia. reflexivity.
+      + lia.
+      + apply get_set_same.
+      + intros j Hj _. apply get_set_other. exact Hj.
+      + reflexivity.
+      + lia.
+      + reflexivity.
+      + constructor; [|constructor]. intros more leaf. cbn [fst snd eval]. symmetry. exact Hwt.
+  Qed.
+End Correct.
